@@ -396,7 +396,8 @@ class C12(Prop):
         "PylifeVerif.C12.fiveSegment_fixes_target_R",
         "PylifeVerif.C12.fiveSegment_monotone_continuous_fixed_mean",
         "PylifeVerif.C12.rebin_conserves_cycles",
-        # the guard = "iso-damage amplitude positive at the cycle and at the target" (Proofs/C12Guard.lean); unguarded five-segment statements
+        # the guard = "iso-damage amplitude positive at the cycle and at the target" (Proofs/C12Guard.lean): transformGuard_iff_pos for the
+        # standard listing order `diagram Minf M0 r1 bs Mn` only, stdDiagram_guard_iff for any listing order; unguarded five-segment statements
         "PylifeVerif.C12.transformGuard_iff_pos",
         "PylifeVerif.C12.stdDiagram_guard_iff",
         "PylifeVerif.C12.fiveSegment_guard_iff",
@@ -416,28 +417,37 @@ class C12(Prop):
     PARTIAL = {
         "PylifeVerif.C12.transform_path_independent":
             "full for every gap-free diagram in standard form (exactly one segment (1,inf] beyond R = 1, at least one border below 1, "
-            "positive iso-damage amplitude at every kink) in any listing order; NOT covered: diagrams with several segments beyond R = 1 - there "
+            "positive iso-damage amplitude at every kink) in any listing order, under THREE TransformGuard hypotheses: for the cycle and the "
+            "first target, for the cycle and the second target, and for the INTERMEDIATE cycle transform D g1 c and the second target (the "
+            "two-guard form transform_path_independent' in Proofs/C12Guard.lean derives the intermediate one from the other two; it is not in "
+            "THEOREMS); NOT covered: diagrams with several segments beyond R = 1 - there "
             "the real code does not follow the iso-damage lines (open finding split-beyond-R1, refuted in the kernel at the witness: "
             "PylifeVerif.C12.split_beyond_R1_fails_at_witness) - and the two-segment diagram {(1,inf], (-inf,1]}",
-        "PylifeVerif.C12.transform_arrives": _CUT,
+        "PylifeVerif.C12.transform_arrives":
+            "domain cut: diagram in standard form (StdDiagram, any listing order: gap-free, exactly one segment (1,inf] beyond R = 1, at least "
+            "one border below 1); NO TransformGuard hypothesis - arrival at the target R holds for every cycle and target with valid R; of "
+            "StdDiagram the proof uses only the listing (a permutation of the standard order) and the order of the borders (SortedR), not GoodD",
         "PylifeVerif.C12.split_beyond_R1_fails_at_witness": "a refutation at the witness of the open finding, listed so that its axioms are audited",
         "PylifeVerif.C12.fiveSegment_guard": "five-segment parameter sets with M4 > 0 or a negative slope are covered by the guarded theorems only",
         "PylifeVerif.C12.transform_idempotent": _CUT,
         "PylifeVerif.C12.transform_fixes_target": _CUT,
         "PylifeVerif.C12.transform_monotone_continuous_fixed_mean_std":
             _CUT + "; the statement is a Lipschitz bound between two amplitudes at which BOTH guards hold",
-        "PylifeVerif.C12.transform_monotone_in_amplitude_fixed_R": _CUT,
+        "PylifeVerif.C12.transform_monotone_in_amplitude_fixed_R":
+            _CUT + "; this theorem is stated for the standard listing order `diagram Minf M0 r1 bs Mn` only (hypotheses SortedR and GoodD, "
+            "not StdDiagram of a permuted list), with the guard at both amplitudes",
         "PylifeVerif.C12.fiveSegment_path_independent": _CUT,
         "PylifeVerif.C12.fiveSegment_idempotent": _CUT,
         "PylifeVerif.C12.fiveSegment_fixes_target_R": _CUT,
         "PylifeVerif.C12.fiveSegment_monotone_continuous_fixed_mean": _CUT,
         "PylifeVerif.C12.goodman_closed_form_monotone_continuous":
-            "about the closed form eqAmp (= the code's result by goodman_eq_closed_form), needs M2 <= M; 'interfaces agree' has no theorem: "
+            "about the closed form eqAmp; the code's result is goodmanClosed = eqAmp / backFactor g (goodman_eq_closed_form), i.e. eqAmp "
+            "divided by a constant that is positive for a fixed target, so monotony and continuity carry over; needs M2 <= M; 'interfaces agree' has no theorem: "
             "the interfaces are pandas glue around the one modelled function and are compared by the correspondence / oracle only",
     }
     RULE = ("case 'cyc' = (diagram: FKM-Goodman M[,M2 - default M/3] | five-segment 7 parameters | from_dict segments; interface range/mean or "
             "from/to frame incl. upper load -0.0; 1 or 2 successive targets incl. -inf and R > 1; cycles incl. those on every segment border, at "
-            "R = -inf, amplitudes 1e-6..1e6, R down to 1+1e-3 and mean/amplitude up to 1e6): model and HaighDiagram.transform must give "
+            "R = -inf, amplitudes 1e-6..1e6, targets R down to 1+1e-3 (cycles reach R of about 1.002) and mean/amplitude up to 1e6): model and HaighDiagram.transform must give "
             "bit-identical range/mean/amplitude for every cycle; "
             "case 'frm' = collective whose index carries an element key (named index | (key, cycle_number) in any level order | unsorted rows | "
             "two-level keys) + parameter FRAME with a different row per key (Goodman with/without M2, five-segment with different R12/R23) "
@@ -448,7 +458,9 @@ class C12(Prop):
             "further levels. Oracle on the real code alone: = textbook Goodman closed form, = segment-walk along iso-damage lines (any diagram), "
             "idempotence, fixed target, path independence, monotone + continuous in amplitude, plain function = collective accessor "
             "(Series and per-row DataFrame parameters, per key) = histogram accessor, matrix total and per-key totals conserved, class sums = the "
-            "cycles transformed one by one with their key's parameters, operands (collective, matrix, parameter frame) unchanged.")
+            "cycles transformed one by one with their key's parameters, operands (collective, matrix, parameter frame) unchanged.  Gates on 'cyc' "
+            "cases: the clause plain function = collective accessor / operands unchanged runs on every 2nd case and on every default-M2 Goodman "
+            "case (and on the every-4th cases below); monotone + continuous in amplitude and the histogram accessor run on every 4th case.")
     ASSUMPTIONS = [
         "C12: pandas glue (Broadcaster: broadcast of the diagram / the parameter frame over the collective or matrix index; xs/loc selection per "
         "segment; reorder of index levels) is NOT modelled: the model is per cycle (each cycle sees the segments of its own diagram row in the "
@@ -462,9 +474,10 @@ class C12(Prop):
         "C12: the driver only parses the line and calls the MODEL functions transformChain / frameAmp / matBreaks / matrixTransform "
         "(Model/Meanstress.lean) with ext = IEEE classification (inf/nan -> ExtR constructors); the theorems instantiate ext = fin over the reals",
         "C12: targets R = 1 (raises ZeroDivisionError / meaningless) and R = +inf are outside the modelled domain; cycles have amplitude > 0; a "
-        "cycle whose R is +inf cannot arise after tools/fixes/C12-signed-zero-upper.diff except by overflow of lower/upper (|lower/upper| > 1.8e308)",
-        "C12: the model follows the code after tools/fixes/C12-beyond-R1-key.diff (committed 1ef2d1a), C12-signed-zero-upper.diff, "
-        "C12-matrix-index-layout.diff, C12-goodman-default-M2-keeps-operand.diff and C12-five-segment-row-pairing.diff",
+        "cycle whose R is +inf cannot arise after /repo commit c28a67e (signed-zero upper load) except by overflow of lower/upper (|lower/upper| > 1.8e308)",
+        "C12: the model follows the code after the /repo commits 1ef2d1a (C12-beyond-R1-key), c28a67e (C12-signed-zero-upper), "
+        "ab50530 (C12-matrix-row-order, superseded by ef4f38d), ef4f38d (C12-matrix-index-layout), 9e46386 (C12-goodman-default-M2-keeps-operand) "
+        "and 3b0f832 (C12-five-segment-row-pairing); all of them are committed",
         "C12: the mean classes of the matrix result (means_bins) are checked by the oracle (every class on the target ray), not by the model",
     ]
 
@@ -939,7 +952,7 @@ class C12(Prop):
             if case["k"] == "mat" and upgrade_mat(case)["par"].get("levels"):
                 msg = str(e)
                 if (isinstance(e, ValueError) and "NaN to integer" in msg) or (isinstance(e, AssertionError) and "new_levels" in msg):
-                    klass = "matrix-index-layout"     # tools/fixes/C12-matrix-index-layout.diff
+                    klass = "matrix-index-layout"     # fixed by /repo commit ef4f38d
             return (f"the implementation raised / returned a malformed result: {type(e).__name__}: {str(e)[:200]}", klass)
 
     def _check_cycle(self, case, diag, walk_segs, g, a, m, r, mm):
@@ -1020,7 +1033,8 @@ class C12(Prop):
         if segs is None:
             return None
         g0 = goals[0]
-        # (5a) operands unchanged, plain function = collective accessor (Series parameters) on EVERY Goodman / five-segment case
+        # (5a) operands unchanged, plain function = collective accessor (Series parameters) on the Goodman / five-segment cases marked
+        # `acc` or `deep` (every 2nd case, every default-M2 Goodman case, every 4th case)
         a_arr = np.array([x[0] for x in am])
         m_arr = np.array([x[1] for x in am])
         if diag[0] in "gf" and (case.get("acc") or case.get("deep")):
@@ -1109,7 +1123,7 @@ class C12(Prop):
             for j, (a, m) in enumerate(am):
                 amp, fr, to = got[tuple(key) + (j,)]
                 if f2h(amp) != f2h(float(plain[j])):
-                    # tools/fixes/C12-five-segment-row-pairing.diff: five_segment paired slopes and R12/R23 of different rows of a
+                    # /repo commit 3b0f832 (C12-five-segment-row-pairing): before it five_segment paired slopes and R12/R23 of different rows of a
                     # parameter frame with a two-level index whose rows are not grouped in sorted order
                     klass = "five-segment-param-row-pairing" if (case["kind"] == "f" and len(key) == 2) else "C12"
                     return (f"key {key} cycle {j} (amplitude {a}, mean {m}), parameters {diag[1]}, target R={g}: accessor with the parameter "
